@@ -258,6 +258,40 @@ def replay_path(cfg, path):
     return None
 
 
+def unbounded(ctx):
+    """Unbounded part: Apalache proves an inductive invariant of the integer abstraction SegFetchInd for every object
+    size, final marker, discovery answer and retry limit (Init => IndInv, IndInv /\\ Next => IndInv', IndInv => the
+    C19 clauses); TLC checks that SegFetch (the specification bound to the code) refines SegFetchInd."""
+    import subprocess, shutil
+    rp = os.path.join(tlc.BUILD, 'SegFetchRef.cfg')
+    tlc.write_cfg(rp, constants={'MaxN': 3, 'MaxRetry': 3}, invariants=['YieldedIsCount', 'IndInvHolds'], properties=['RefinesInd'])
+    r = tlc.run('SegFetchRef', rp, workers=4, heavy=False)
+    ctx.add_tlc('SegFetch refines SegFetchInd', r)
+    if r.violated:
+        ctx.violation('C19/spec/SegFetchRef/%s' % r.violated, 'TLC: %s violated (SegFetch does not refine SegFetchInd)' % r.violated,
+                      {'trace': r.errtrace})
+    if shutil.which('apalache-mc') is None:
+        ctx.note('apalache-mc not found: the unbounded inductive argument was not re-checked in this run')
+        return
+    out = os.path.join(tlc.BUILD, 'apalache')
+    obligations = [('InitA', 'IndInv', 0, 'Init => IndInv'), ('IndInit', 'IndInv', 1, "IndInv /\\ Next => IndInv'"),
+                   ('IndInit', 'Safety', 0, 'IndInv => InOrderOnce /\\ DoneComplete /\\ RetryBound /\\ FailsIffExhausted')]
+    done = 0
+    for init, inv, length, what in obligations:
+        p = subprocess.run(['apalache-mc', 'check', '--init=' + init, '--inv=' + inv, '--length=%d' % length, '--out-dir=' + out,
+                            'SegFetchInd.tla'], cwd=tlc.SPEC, stdout=subprocess.PIPE, stderr=subprocess.STDOUT, text=True, timeout=900)
+        if 'The outcome is: NoError' in p.stdout:
+            done += 1
+        elif 'The outcome is: Error' in p.stdout:
+            ctx.violation('C19/spec/SegFetchInd/' + inv, 'Apalache: obligation "%s" fails' % what, {'out': p.stdout[-3000:]})
+        else:
+            raise tlc.MachineryError('apalache-mc failed on %s/%s:\n%s' % (init, inv, p.stdout[-2000:]))
+    shutil.rmtree(out, ignore_errors=True)
+    ctx.extra['apalache_obligations'] = len(obligations)
+    ctx.extra['apalache_discharged'] = done
+    ctx.note('Apalache: %d/%d inductive-invariant obligations of SegFetchInd discharged (unbounded sizes)' % (done, len(obligations)))
+
+
 INVS = ['TypeOK', 'InOrderOnce', 'DoneComplete', 'RetryBound', 'FailsIffExhausted', 'NoSkip', 'DiscoveryShape']
 
 
@@ -286,6 +320,8 @@ def run(ctx):
             rw = tlc.run('SegFetch', wp, workers=2, heavy=False)
             if rw.violated != w:
                 raise tlc.MachineryError('witness %s not reachable' % w)
+    if 'A' in ctx.stages:
+        unbounded(ctx)
     if 'B' in ctx.stages:
         gcfg = os.path.join(tlc.BUILD, 'SegFetch_g.cfg')
         gn, gr = ctx.pick((3, 2), (3, 3))
